@@ -137,6 +137,7 @@ class Ctx:
         self.fname = fname
         self.counters = {}
         self.nchecks = 0
+        self.pc_ids = set()
         self.nmodel_hits = 0
         self.model = None
         self.notes = []
@@ -147,6 +148,7 @@ class Ctx:
         if c is True or z3.is_true(c):
             return
         self.pc.append(c)
+        self.pc_ids.add(c.get_id())
         if not solver:
             return           # kept for the obligations only (see define(lenfact=True))
         if self.model is not None and not self._model_says(c):
@@ -271,6 +273,8 @@ class Ctx:
             goal = z3.BoolVal(True)
         if goal is False:
             goal = z3.BoolVal(False)
+        if info is None and goal.get_id() in self.pc_ids:
+            info = {'trivial': 'assumed'}      # the goal is literally one of the assumptions
         self.obls.append(Obligation(name, kind, list(self.pc), goal, tuple(t[0] for t in self.taken), info,
                                     tuple(self.axioms)))
 
@@ -371,6 +375,10 @@ class Interp:
 
     def truth(self, v):
         """python truthiness as python bool or z3 Bool."""
+        if isinstance(v, SV):
+            hit = self.ctx.ghost.get('resolved', {}).get(v.e.get_id())
+            if hit is None:
+                return self.truthy_val(v.e)
         v = self.resolve(v)
         if isinstance(v, (bool, int, float, str, bytes, type(None), tuple, list, dict, set)):
             return bool(v)
@@ -403,6 +411,18 @@ class Interp:
         if isinstance(v, HDict):
             raise Unsupported('truthiness of symbolic dict')
         return bool(v)
+
+    def truthy_val(self, e):
+        """truthiness of a dynamically typed value as one formula (no fork on its type); objects and
+        opaque values count as true (no __bool__ / __len__ protocol is modelled for them)"""
+        V = VAL
+        return z3.If(V.is_vbool(e), V.b(e),
+               z3.If(V.is_vint(e), V.i(e) != 0,
+               z3.If(V.is_vbytes(e), z3.Length(V.y(e)) != 0,
+               z3.If(V.is_vstr(e), z3.Length(V.s(e)) != 0,
+               z3.If(V.is_vblist(e), V.ll(e) != 0,
+               z3.If(V.is_vfloat(e), z3.Not(sym.f_iszero(V.f(e))),
+               z3.If(z3.Or(V.is_vnone(e), V.is_absent(e)), z3.BoolVal(False), z3.BoolVal(True))))))))
 
     def test(self, v, label=''):
         return self.ctx.branch(self.truth(v), label)
@@ -493,6 +513,12 @@ class Interp:
             return V.vref(zint(oid))
         if isinstance(v, Opaque):
             return V.vopq(zint(v.oid))
+        if isinstance(v, SEnum):
+            items = list(v.table.items())
+            r = self.to_val(items[-1][1])
+            for k, x in reversed(items[:-1]):
+                r = z3.If(zint(v.idx) == k, self.to_val(x), r)
+            return r
         raise Unsupported(f'cannot store {type(v).__name__} into a symbolic container')
 
     # --------------------------------------------------------------------------- functions
@@ -814,6 +840,8 @@ class Interp:
             ctx.ghost['speculating'] = old_guard
             ctx.model = saved_model
             ctx.solver.pop()
+            for c_ in ctx.pc[saved[0]:]:
+                ctx.pc_ids.discard(c_.get_id())
             del ctx.pc[saved[0]:]
             del ctx.taken[saved[1]:]
             del ctx.obls[saved[2]:]
@@ -1460,6 +1488,7 @@ class Interp:
 
     def setattr_(self, o, attr, v):
         self.heap_write_guard()
+        o = self.resolve(o)
         if isinstance(o, HObj):
             o.f[attr] = v
             return
